@@ -163,6 +163,11 @@ def run(prop, seed, base_results=None, repo=None):
             sm = M("seed:" + os.path.basename(d), None, None, None, expect=prop + "-R")
             sm.diff = open(os.path.join(d, "patch.diff")).read()
             specs.append(sm)
+    # behaviour-preserving refactors written by independent sub-agents for this property's anchors: must stay silent
+    for f in sorted(glob.glob(os.path.join(verif, "twins", prop + "-*.diff"))):
+        tm = M("twin:" + os.path.basename(f)[:-5], None, None, None, twin=True)
+        tm.diff = open(f).read()
+        specs.append(tm)
     if not specs:
         return {"selftest": {"mutants": 0, "twins": 0}}
     if base_results is None:
